@@ -158,6 +158,7 @@ C02_RealResult ==
          /\ r.d \in Deps(r.t)
          /\ r.ok => (fin[r.d] = "ok" /\ r.v = dig[r.d])
          /\ fin[r.d] # "ok" => ~r.ok
+         /\ fin[r.d] = "ok" => r.ok                \* the result of a dependency that finished in this run can be read
 
 (* C03  each distinct task runs at most once, and only if its result is needed *)
 
